@@ -320,11 +320,15 @@ class Delete:
         self.ignore_missing = ignore_missing
 
     @staticmethod
-    def _is_missing(dest, arg, exc, scope):
-        if isinstance(exc, (LookupError, AttributeError, ValueError)):
-            return True  # no such key / index / attribute, non-integer "index"
-        try:  # any other failure: missing only if there is nothing to read either
-            scope[TargetRegistry].get_handler('get', dest)(dest, arg)
+    def _is_missing(dest, arg, exc, scope, get=None):
+        if isinstance(exc, LookupError):
+            return True  # no such key / index
+        # any other failure (an AttributeError is also how a read-only attribute
+        # refuses): missing only if there is nothing to read either
+        try:
+            if get is None:
+                get = scope[TargetRegistry].get_handler('get', dest)
+            get(dest, arg)
         except Exception:
             return True
         return False
@@ -340,7 +344,7 @@ class Delete:
             try:
                 delattr(dest, arg)
             except AttributeError as e:
-                if not self.ignore_missing:
+                if not (self.ignore_missing and self._is_missing(dest, arg, e, scope, getattr)):
                     raise PathDeleteError(e, self.path, arg)
         elif op == 'P':
             _delete = scope[TargetRegistry].get_handler('delete', dest)
